@@ -3,6 +3,7 @@ import Pixman.Spec.Gradient
 import Pixman.Lemmas.GradientSafety
 import Pixman.Lemmas.GradientGeometry
 import Pixman.Lemmas.GradientWalker
+import Pixman.Lemmas.GradientCompose
 /-!
 # C13 — gradients paint the stop interpolation at each pixel's geometric parameter
 
@@ -64,9 +65,19 @@ example :
 Proved: the search brackets the (folded) position — no off-by-one in the stop lookup, for any stop
 list; for non-decreasing stops the bracketing pair is the neighbouring pair —; the sentinels per
 repeat mode; the colour of the selected interval is the premultiplied linear interpolation in
-non-premultiplied space.  NOT proved (gap, tested by the Spec oracle of the check on every pixel):
-the composition `walkerEval (walkerReset …) = Spec.colourAt` with `Spec.fold` for NORMAL/REFLECT
-and the list-filter form of the Spec's neighbours; hence the `_partial` names. -/
+non-premultiplied space (the `_partial` components below), and their COMPOSITION
+`walker_colour_eq_spec`: after a fresh stop search at `pos` the painted colour is `Spec.colourAt`
+at `pos / 65536`, for every repeat mode (`Spec.fold = foldPos`, the Spec's neighbours
+(`filter … getLast?/head?`) = the search loop, the 12 sentinel cases).
+
+Hard-edge convention, stated explicitly: after folding by the repeat mode segments are LEFT-CLOSED in
+the folded parameter (`u = stop position` belongs to the segment starting there; of several stops at
+one position the last one is the left neighbour of everything from there on).  In the mirrored periods
+of REFLECT this is RIGHT-CLOSED in the unfolded parameter: the code's fresh search does exactly that
+and so does the Spec (`fold` first, then left-closed neighbours).  Not covered: the walker's segment
+cache (`x < left_x || x >= right_x` is left-closed in the unfolded parameter in every period, so in
+mirrored REFLECT periods a cached segment can answer a hard-edge position differently from a fresh
+search — the history dependence the check reports as excluded points). -/
 
 /-- the index `n` found by the search: every stop before `n` is at or before the position, stop `n`
     (if any) is strictly after it (`ext[k + 1]` is C's `stops[k]`) -/
@@ -121,6 +132,107 @@ theorem walker_degenerate_colour_partial (w : Walker) (pos x : Int)
 example :
     let stops : Array Stop := #[⟨0, ⟨65535, 0, 0, 65535⟩⟩, ⟨65536, ⟨0, 0, 65535, 65535⟩⟩]
     walkerEval (walkerReset (walkerInit .pad stops) 32768) 32768 = ⟨1, 1 / 2, 0, 1 / 2⟩ := by decide +kernel
+
+/-- G2 composition, REPEAT_NONE, every 16.16 position: transparent before the first stop and from
+    the last stop on, else the premultiplied interpolation of the two neighbouring stops -/
+theorem walker_colour_eq_spec_none (stops : Array Stop) (hwf : WellFormed stops) (pos : Int) :
+    toP (walkerEval (walkerReset (walkerInit .none stops) pos) pos) =
+      Pixman.Spec.Gradient.colourAt .none (specStops stops) ((pos : Rat) / 65536) :=
+  walker_eq_spec_none stops hwf pos
+
+/-- G2 composition, REPEAT_PAD, every 16.16 position -/
+theorem walker_colour_eq_spec_pad (stops : Array Stop) (hwf : WellFormed stops) (pos : Int) :
+    toP (walkerEval (walkerReset (walkerInit .pad stops) pos) pos) =
+      Pixman.Spec.Gradient.colourAt .pad (specStops stops) ((pos : Rat) / 65536) :=
+  walker_eq_spec_pad stops hwf pos
+
+/-- G2 composition, REPEAT_NORMAL, |pos| < 2^31 - 2^18 (`PosOk`) -/
+theorem walker_colour_eq_spec_normal (stops : Array Stop) (hwf : WellFormed stops) (pos : Int) (hpos : PosOk pos) :
+    toP (walkerEval (walkerReset (walkerInit .normal stops) pos) pos) =
+      Pixman.Spec.Gradient.colourAt .normal (specStops stops) ((pos : Rat) / 65536) :=
+  walker_eq_spec_normal stops hwf pos hpos
+
+/-- G2 composition, REPEAT_REFLECT (mirrored periods right-closed in `pos`, as the code), `PosOk pos` -/
+theorem walker_colour_eq_spec_reflect (stops : Array Stop) (hwf : WellFormed stops) (pos : Int) (hpos : PosOk pos) :
+    toP (walkerEval (walkerReset (walkerInit .reflect stops) pos) pos) =
+      Pixman.Spec.Gradient.colourAt .reflect (specStops stops) ((pos : Rat) / 65536) :=
+  walker_eq_spec_reflect stops hwf pos hpos
+
+/-- G2 composition: non-decreasing stop positions in `[0, 1]`, `n ≥ 1` (`WellFormed`), any repeat mode,
+    any 16.16 position (for NORMAL/REFLECT within `PosOk`: |pos| < 2^31 - 2^18, i.e. |t| < 32764):
+    the colour painted after the stop search at `pos` is the Spec's colour of `pos / 65536` -/
+theorem walker_colour_eq_spec (rep : Repeat) (stops : Array Stop) (hwf : WellFormed stops) (pos : Int)
+    (hpos : rep = .normal ∨ rep = .reflect → PosOk pos) :
+    toP (walkerEval (walkerReset (walkerInit rep stops) pos) pos) =
+      Pixman.Spec.Gradient.colourAt (toSpecRep rep) (specStops stops) ((pos : Rat) / 65536) :=
+  walker_eq_spec rep stops hwf pos hpos
+
+/-- the model's well-formedness is the Spec's -/
+theorem wellFormed_spec (stops : Array Stop) (hwf : WellFormed stops) :
+    Pixman.Spec.Gradient.WellFormed (specStops stops) := by
+  refine ⟨?_, ?_, ?_⟩
+  · intro h
+    have := specStops_length stops
+    rw [h] at this
+    have := hwf.nonempty
+    simp at *; omega
+  · rw [List.pairwise_iff_getElem]
+    intro i j hi hj hij
+    rw [specStops_length] at hi hj
+    have e1 := specStops_get' stops i hi
+    have e2 := specStops_get' stops j hj
+    rw [List.getElem?_eq_getElem (by rw [specStops_length]; exact hi)] at e1
+    rw [List.getElem?_eq_getElem (by rw [specStops_length]; exact hj)] at e2
+    injection e1 with e1; injection e2 with e2
+    rw [e1, e2]
+    exact (px_le _ _).mpr (hwf.sorted i j (by omega) hj)
+  · intro s hs
+    obtain ⟨k, hk⟩ := List.getElem?_of_mem hs
+    obtain ⟨hks, rfl⟩ := specStops_get stops k s hk
+    have h0 := hwf.lo k hks
+    have h1 := hwf.hi k hks
+    constructor
+    · have := (px_le 0 _).mpr h0
+      have e : ((0 : Int) : Rat) / 65536 = 0 := by
+        have : ((0 : Int) : Rat) = 0 := rfl
+        rw [this]; grind
+      rw [e] at this
+      exact this
+    · have := (px_le _ 65536).mpr h1
+      have e : ((65536 : Int) : Rat) / 65536 = 1 := by
+        have : ((65536 : Int) : Rat) = 65536 := rfl
+        rw [this]; grind
+      rw [e] at this
+      exact this
+
+/-- non-vacuity: three stops with a hard edge (two stops at 0.5) are well-formed; on the edge the
+    colour is the one of the segment starting there (blue), just below it the left one (green) -/
+def exampleStops : Array Stop := #[⟨0, ⟨65535, 0, 0, 65535⟩⟩, ⟨32768, ⟨0, 65535, 0, 65535⟩⟩, ⟨32768, ⟨0, 0, 65535, 65535⟩⟩]
+
+example : WellFormed exampleStops := by
+  refine ⟨by decide, ?_, ?_, ?_⟩
+  · intro i j hij hj
+    have hj' : j < 3 := hj
+    rcases (by omega : j = 0 ∨ j = 1 ∨ j = 2) with rfl | rfl | rfl <;>
+      rcases (by omega : i = 0 ∨ i = 1 ∨ i = 2) with rfl | rfl | rfl <;> first | omega | decide
+  · intro i hi
+    have hi' : i < 3 := hi
+    rcases (by omega : i = 0 ∨ i = 1 ∨ i = 2) with rfl | rfl | rfl <;> decide
+  · intro i hi
+    have hi' : i < 3 := hi
+    rcases (by omega : i = 0 ∨ i = 1 ∨ i = 2) with rfl | rfl | rfl <;> decide
+
+example : toP (walkerEval (walkerReset (walkerInit .pad exampleStops) 32768) 32768) = ⟨1, 0, 0, 1⟩ ∧
+    toP (walkerEval (walkerReset (walkerInit .pad exampleStops) 32767) 32767) = ⟨1, 1 / 32768, 32767 / 32768, 0⟩ := by
+  decide +kernel
+
+/-- why `PosOk`: at `pos = INT32_MIN + 16384` the shifted left end of a NORMAL interval equals `INT32_MIN`,
+    the code takes its sentinel branch (mean of the two colours) instead of interpolating -/
+example :
+    let stops : Array Stop := #[⟨0, ⟨65535, 0, 0, 65535⟩⟩, ⟨65536, ⟨0, 0, 65535, 65535⟩⟩]
+    toP (walkerEval (walkerReset (walkerInit .normal stops) (-2147483648 + 16384)) (-2147483648 + 16384)) = ⟨1, 1 / 2, 0, 1 / 2⟩ ∧
+    Pixman.Spec.Gradient.colourAt .normal (specStops stops) (((-2147483648 + 16384 : Int) : Rat) / 65536) = ⟨1, 3 / 4, 0, 1 / 4⟩ := by
+  decide +kernel
 
 /-! ## G3 — the linear parameter is the projection parameter; affine increments are exact -/
 namespace S
